@@ -87,19 +87,19 @@ class JobResult:
 # stateless explorer: choice points, deviation-bounded DFS by re-execution
 
 
-class DivergenceError(Exception):
+class DivergenceError(BaseException):
     """A recorded choice prefix could not be replayed (harness nondeterminism) - internal error."""
 
 
-class Pruned(Exception):
+class Pruned(BaseException):
     """Raised by Ctx.state() when an already expanded canonical state is reached."""
 
 
-class HorizonHit(Exception):
+class HorizonHit(BaseException):
     """The harness' step horizon was exceeded."""
 
 
-class Deadlock(Exception):
+class Deadlock(BaseException):
     """Nothing can run and nothing is pending."""
 
 
